@@ -428,5 +428,11 @@ class ReconnectLogic(zeroconf.RecordUpdateListener):
             # attempt again.
             #
             self._connect_from_zeroconf()
-            self._accept_zeroconf_records = False
+            if self._connect_task is not None and not self._connect_task.done():
+                # The attempt starts eagerly. If it already failed without
+                # ever yielding (ie. the network is unreachable) it has
+                # turned record processing on again for the following retry
+                # wait, which must not be undone here or every record
+                # received during that wait would be ignored.
+                self._accept_zeroconf_records = False
             return
